@@ -43,15 +43,14 @@ fn main() {
                         .parent()
                         .unwrap_or(&Path::new("."))
                         .to_path_buf();
-                    let mut out_file_name = String::from(
-                        opt.source
-                            .as_path()
-                            .file_stem()
-                            .unwrap()
-                            .to_str()
-                            .unwrap_or(""),
-                    );
-                    out_file_name += ".hex";
+                    // the stem as it is, whatever bytes the file name consists of
+                    let mut out_file_name = opt
+                        .source
+                        .as_path()
+                        .file_stem()
+                        .unwrap_or_default()
+                        .to_os_string();
+                    out_file_name.push(".hex");
 
                     source_parent.push(out_file_name);
 
@@ -82,15 +81,13 @@ fn main() {
                         .parent()
                         .unwrap_or(&Path::new("."))
                         .to_path_buf();
-                    let mut out_file_name = String::from(
-                        opt.source
-                            .as_path()
-                            .file_stem()
-                            .unwrap()
-                            .to_str()
-                            .unwrap_or(""),
-                    );
-                    out_file_name += ".eep.hex";
+                    let mut out_file_name = opt
+                        .source
+                        .as_path()
+                        .file_stem()
+                        .unwrap_or_default()
+                        .to_os_string();
+                    out_file_name.push(".eep.hex");
 
                     source_parent.push(out_file_name);
 
